@@ -1218,7 +1218,7 @@ fire("c12-mixin-loses-mro", ["C12", "C02"], EVF,
      "class EvaluationMapper(RecursiveMapper, CSECachingMapperMixin):",
      "class EvaluationMapper(RecursiveMapper, CSECachingMapperMixin):\n"
      "    def map_common_subexpression(self, expr):\n        return self.rec(expr.child)\n",
-     "S/cse-mixin-mro/EvaluationMapper")
+     "cse-mixin")
 fire("c12-make-cse-wraps-constants", ["C12"], PR,
      "        if is_constant(field):\n            return field\n        else:\n"
      "            return CommonSubexpression(field, prefix, scope)",
@@ -1418,3 +1418,101 @@ silent("c16-silent-guard-form", ["C16"], UNF,
        "            urecs = self.rec(expr.exponent, other.exponent, urecs)\n"
        "            return self.rec(expr.base, other.base, urecs)\n"
        "        return self.treat_mismatch(expr, other, urecs)")
+
+# ---------------------------------------------------------------------------
+# C02
+# ---------------------------------------------------------------------------
+fire("c02-quotient-swapped", ["C02"], EVF,
+     "        return self.rec(expr.numerator) / self.rec(expr.denominator)\n\n"
+     "    def map_floor_div",
+     "        return self.rec(expr.denominator) / self.rec(expr.numerator)\n\n"
+     "    def map_floor_div",
+     "E/EvaluationMapper/Quotient")
+fire("c02-floordiv-is-truediv", ["C02"], EVF,
+     "        return self.rec(expr.numerator) // self.rec(expr.denominator)",
+     "        return self.rec(expr.numerator) / self.rec(expr.denominator)",
+     "E/EvaluationMapper/FloorDiv")
+fire("c02-xor-is-or", ["C02"], EVF,
+     "        return reduce(op.xor, (self.rec(ch) for ch in expr.children))",
+     "        return reduce(op.or_, (self.rec(ch) for ch in expr.children))",
+     "E/EvaluationMapper/BitwiseXor")
+fire("c02-shift-swapped", ["C02"], EVF,
+     "        return self.rec(expr.shiftee) << self.rec(expr.shift)",
+     "        return self.rec(expr.shift) << self.rec(expr.shiftee)",
+     "E/EvaluationMapper/LeftShift")
+fire("c02-power-swapped", ["C02"], EVF,
+     "        return self.rec(expr.base) ** self.rec(expr.exponent)",
+     "        return self.rec(expr.exponent) ** self.rec(expr.base)",
+     "E/EvaluationMapper/Power")
+fire("c02-if-eager", ["C02"], EVF,
+     "    def map_if(self, expr):\n        if self.rec(expr.condition):\n"
+     "            return self.rec(expr.then)\n        else:\n"
+     "            return self.rec(expr.else_)",
+     "    def map_if(self, expr):\n        then = self.rec(expr.then)\n"
+     "        else_ = self.rec(expr.else_)\n        if self.rec(expr.condition):\n"
+     "            return then\n        else:\n            return else_",
+     "E/EvaluationMapper/If")
+fire("c02-if-branches-swapped", ["C02"], EVF,
+     "    def map_if(self, expr):\n        if self.rec(expr.condition):\n"
+     "            return self.rec(expr.then)\n        else:\n"
+     "            return self.rec(expr.else_)",
+     "    def map_if(self, expr):\n        if self.rec(expr.condition):\n"
+     "            return self.rec(expr.else_)\n        else:\n"
+     "            return self.rec(expr.then)",
+     "E/EvaluationMapper/If")
+fire("c02-logical-and-is-any", ["C02"], EVF,
+     "    def map_logical_and(self, expr):\n"
+     "        return all(self.rec(ch) for ch in expr.children)",
+     "    def map_logical_and(self, expr):\n"
+     "        return any(self.rec(ch) for ch in expr.children)",
+     "E/EvaluationMapper/LogicalAnd")
+fire("c02-min-is-max", ["C02"], EVF,
+     "    def map_min(self, expr):\n        return min(self.rec(child) for child in expr.children)",
+     "    def map_min(self, expr):\n        return max(self.rec(child) for child in expr.children)",
+     "E/EvaluationMapper/Min")
+fire("c02-call-drops-kwargs", ["C02"], EVF,
+     "        return self.rec(expr.function)(*args, **kwargs)",
+     "        return self.rec(expr.function)(*args)",
+     "CallWithKwargs")
+fire("c02-call-args-reversed", ["C02"], EVF,
+     "        return self.rec(expr.function)(*[self.rec(par) for par in expr.parameters])",
+     "        return self.rec(expr.function)(*[self.rec(par) for par in reversed(expr.parameters)])",
+     "E/EvaluationMapper/Call")
+fire("c02-comparison-table-swapped", ["C02"], PR,
+     "            \">=\": \"ge\",\n            \">\": \"gt\",",
+     "            \">=\": \"gt\",\n            \">\": \"ge\",",
+     "T/operator_to_name/")
+fire("c02-comparison-operands-swapped", ["C02"], EVF,
+     "            self.rec(expr.left), self.rec(expr.right))",
+     "            self.rec(expr.right), self.rec(expr.left))",
+     "E/EvaluationMapper/Comparison")
+fire("c02-unknown-variable-is-none", ["C02"], EVF,
+     "        except KeyError:\n            raise UnknownVariableError(expr.name) from None",
+     "        except KeyError:\n            return None",
+     "P/EvaluationMapper/map_variable")
+fire("c02-division-error-swallowed", ["C02"], EVF,
+     "    def map_quotient(self, expr):\n"
+     "        return self.rec(expr.numerator) / self.rec(expr.denominator)\n\n    def map_floor_div",
+     "    def map_quotient(self, expr):\n        try:\n"
+     "            return self.rec(expr.numerator) / self.rec(expr.denominator)\n"
+     "        except ZeroDivisionError:\n            return float(\"inf\")\n\n    def map_floor_div",
+     "except:ZeroDivisionError")
+fire("c02-subscript-swapped", ["C02"], EVF,
+     "            return rec_result[self.rec(expr.index)]",
+     "            return self.rec(expr.index)[rec_result]",
+     "E/EvaluationMapper/Subscript")
+fire("c02-cse-not-child", ["C02"], EVF,
+     "    def map_common_subexpression_uncached(self, expr):\n"
+     "        return self.rec(expr.child)",
+     "    def map_common_subexpression_uncached(self, expr):\n"
+     "        return expr.child",
+     "CommonSubexpression")
+fire("c02-sum-skips-first", ["C02"], EVF,
+     "        return sum(self.rec(child) for child in expr.children)",
+     "        return sum(self.rec(child) for child in expr.children[1:])",
+     "E/EvaluationMapper/Sum")
+silent("c02-silent-product-spelling", ["C02"], EVF,
+       "        from pytools import product\n"
+       "        return product(self.rec(child) for child in expr.children)",
+       "        import math\n"
+       "        return math.prod(self.rec(child) for child in expr.children)")
